@@ -14,6 +14,7 @@ From Tx Require Model.OpsC13.
 From Tx Require Model.OpsC09.
 From Tx Require Model.OpsC12.
 From Tx Require Model.OpsC04.
+From Tx Require Model.OpsC06.
 Local Open Scope Z_scope.
 
 Definition run_op (s : sexp) : sexp :=
@@ -33,6 +34,7 @@ Definition run_op (s : sexp) : sexp :=
       | 9 => OpsC09.op args
       | 12 => OpsC12.op args
       | 4 => OpsC04.op args
+      | 6 => OpsC06.op args
       | _ => bad
       end
   | _ => bad
